@@ -1126,6 +1126,10 @@ def c09(tier):
         tail3 = [rnd.randint(-3, 3) for _ in range(H)]
         add(cfg, "pair", [rnd.choice([-2000000000, 2000000000, 1500000000]) for _ in range(300)] + tail3, [rnd.randint(-3000, 3000) for _ in range(300)] + tail3,
             unit=1000, maxabs=2000000000, tailabs=3)
+    if 512 not in ns:
+        # the listed finding KF3 (TrendFlex / ReFlex from N = 436 on a constant tail) is exhibited in every tier
+        for kk in ("TrendFlex", "ReFlex"):
+            add({"k": kk, "n": 512}, "pair", [-1000] * 50 + [0] * 15360, [1000] * 50 + [0] * 15360, tail="constant")
     out = record(run, "streams", progs)
     lines = []
     for m, r in zip(meta, out):
